@@ -86,6 +86,12 @@ Purge(m) ==
     /\ arrival' = WithoutBox(arrival, m)
     /\ UNCHANGED <<used, cap, limit>>
 
+(* Closing the store and opening it again on the same path, possibly with  *)
+(* another cap: nothing changes; the new cap applies from the next Add on. *)
+Reopen(c) ==
+    /\ cap' = c
+    /\ UNCHANGED <<boxes, used, arrival, limit>>
+
 (* Retention scan: remove every message for which Expired(meta) holds.     *)
 Scan(Expired(_)) ==
     /\ boxes' = [m \in Mailbox |-> SelectSeq(boxes[m], LAMBDA x : ~Expired(x.meta))]
